@@ -2,7 +2,7 @@
    Proved here for the places where the parser model looks at token text; the whole-statement claim is judged on the
    implementation by surface variation of statements with known trees. *)
 From Coq Require Import List NArith ZArith Bool String Ascii Lia.
-Require Import Base.Common Gen.LexTable Lex.Model Cur.Model Tree.Value Gen.Static Parse.Prim Parse.Model Parse.LoopProofs Parse.C09Facts Expr.Spec Expr.Proofs Lex.Compose Lex.Layout.
+Require Import Base.Common Gen.LexTable Lex.Model Cur.Model Tree.Value Gen.Static Parse.Prim Parse.Model Parse.LoopProofs Parse.C09Facts Expr.Spec Expr.Proofs Lex.Compose Lex.Layout Lex.Ghost.
 Import ListNotations.
 Open Scope string_scope.
 Open Scope list_scope.
@@ -61,6 +61,18 @@ Example C09_layout_example :
   ends_in_placeholder false (S "SELECT a -- c") = false.
 Proof. vm_compute. repeat split. Qed.
 
+(* 7. ... and at ANY bracket depth, for ANY continuation (Lex/Ghost.v): an extra blank or line break at a point where the lexer stands between
+   tokens (state WAIT after the prefix) changes nothing - the token trees are equal, and a rejected text is rejected with the same error.  The
+   two runs differ by one ghost item; memories that agree up to ghosts stay so under every effect of the transducer. *)
+Theorem C09_extra_layout_is_invisible : forall mb (c : N) p1 p2, (c = 32%N \/ c = 10%N) ->
+  forallb plain_char p1 = true -> forallb plain_char p2 = true -> end_state (table mb 7) p1 = Some S_WAIT ->
+  lex mb 7 (p1 ++ c :: p2) = lex mb 7 (p1 ++ p2).
+Proof. exact lex_extra_layout_plain. Qed.
+Example C09_extra_layout_example :
+  end_state (table false 7) (S "SELECT f(a, (b +") = Some S_WAIT /\ end_state (table false 7) (S "SELECT f(a, (col") = Some S_IN_WORD /\
+  forallb plain_char (S "SELECT f(a, (b +") = true.
+Proof. vm_compute. repeat split. Qed.
+
 Print Assumptions C09_keyword_tests_case_blind.
 Print Assumptions C09_keyword_pairs_case_blind.
 Print Assumptions C09_keyword_sets_case_blind.
@@ -74,3 +86,5 @@ Print Assumptions C09_limit_spellings_agree.
 Print Assumptions C09_blank_is_layout.
 Print Assumptions C09_line_break_is_layout.
 Print Assumptions C09_layout_example.
+Print Assumptions C09_extra_layout_is_invisible.
+Print Assumptions C09_extra_layout_example.
